@@ -61,7 +61,11 @@ func canonErr(e error) map[string]interface{} {
 		m["k"] = k
 		m["n"] = n
 	default:
-		m["c"] = -1
+		// a plain error: the IMPORTANT!-stripped copies made by keepRelevantErrors
+		m["c"] = 0
+		k, n := classify422(e.Error())
+		m["k"] = k
+		m["n"] = n
 	}
 	return m
 }
@@ -314,6 +318,9 @@ func runSchemaCase(c Case) interface{} {
 	if out["undecodable"] != nil {
 		return out
 	}
+	// every observation starts from fresh pools: cases of this family are meant to be independent
+	// (histories through the pools are the business of the "history" family)
+	validate.VerifResetPools()
 	// A: one-shot entry point
 	out["oneshot"] = observe(func() map[string]interface{} {
 		sch := parseSchemaJSON(sb)
@@ -335,6 +342,7 @@ func runSchemaCase(c Case) interface{} {
 		}
 		return r
 	})
+	validate.VerifResetPools()
 	// B: validator object, no recycling, caller's root path; used twice (C08)
 	out["object"] = observe(func() map[string]interface{} {
 		sch := parseSchemaJSON(sb)
@@ -350,6 +358,13 @@ func runSchemaCase(c Case) interface{} {
 		res2 := v.Validate(getData())
 		r["again"] = map[string]interface{}{"valid": res2.IsValid(), "errors": canonErrs(res2.Errors), "mc": res2.MatchCount}
 		return r
+	})
+	validate.VerifResetPools()
+	// C: validator object at the default root path: the result underlying the one-shot entry point
+	out["object0"] = observe(func() map[string]interface{} {
+		sch := parseSchemaJSON(sb)
+		res := validate.NewSchemaValidator(sch, nil, "", strfmt.Default, opts...).Validate(getData())
+		return map[string]interface{}{"valid": res.IsValid(), "errors": canonErrs(res.Errors)}
 	})
 	out["hasRef"] = hasRefOrID(c["schema"])
 	return out
